@@ -281,7 +281,10 @@ func (b *ByteSlice) GetSlice(slice Slice) (Object, *Error) {
 	if err != nil {
 		return nil, NewError(err)
 	}
-	return NewByteSlice(b.value[start:stop]), nil
+	// Copy, so that the slice is independent of this byte_slice (as with lists)
+	items := make([]byte, stop-start)
+	copy(items, b.value[start:stop])
+	return NewByteSlice(items), nil
 }
 
 func (b *ByteSlice) SetItem(key, value Object) *Error {
